@@ -321,7 +321,7 @@ def sample_files(r, nfiles=3, nlines=14):
     pool4 = [r.getrandbits(32) for _ in range(10)] + [0x0A000001, 0x0A000101, 0xC0A80001, 0x08080808, 0x01010101]
     pool6 = [r.getrandbits(128) for _ in range(5)] + [1, 5, (0x20010DB8 << 96) | 1, (0xFE80 << 112) | 5]
     tmpl = ["interface Loopback%d", " ip address {a4} 255.255.255.0", " ipv6 address {a6}/64", "router bgp 65001", " neighbor {a4} remote-as 65002",
-            "ip route {a4} 255.255.255.255 {b4}", "ntp server {a6}", "! comment {a4} and {a6}", "access-list 10 permit {a4} 0.0.0.255", "logging host {b4}", ""]
+            "ip route {a4} 255.255.255.255 {b4}", "ntp server {a6}", "tunnel destination ::ffff:{a4}", "nat64 prefix 64:ff9b::{b4}", "! comment {a4} and {a6}", "access-list 10 permit {a4} 0.0.0.255", "logging host {b4}", ""]
     files = {}
     for f in range(nfiles):
         ls = []
@@ -502,3 +502,26 @@ def file_level(ck, pid, tier):
         ck.count(("files", pid, salt))
     judge(ck, pid, traces, meta, "files")
     ck.sample({"file_level": meta[0]["cfg"], "lines": [x for x in meta[0]["lines"] if x[0]][:4]})
+
+
+# ---------------------------------------------------------------------------
+# C04 through FileAnonymizer: host bits given separately for the two families
+# ---------------------------------------------------------------------------
+def hostbits_part_c04(ck, tier):
+    r = rng("C04", "hostbits")
+    traces, meta = [], []
+    combos = [(8, 16), (0, 8), (None, 8), (4, 32), (16, 8), (8, 8), (32, 0), (0, 0)] + ([(1, 31), (24, 64), (8, 128)] if tier == "thorough" else [])
+    for ps4, ps6 in combos:
+        cfg = Cfg("hb-%s-%s" % (ps4, ps6), ps4=ps4, ps6=ps6)
+        lines = []
+        for _ in range(8):
+            a4, a6 = r.getrandbits(32), r.getrandbits(128)
+            for flip in range(3):
+                b4 = a4 ^ (r.getrandbits(ps4) if ps4 else 0)          # same leading part, other host bits
+                b6 = a6 ^ (r.getrandbits(min(ps6, 128)) if ps6 else 0)
+                lines.append("peer %s %s" % (D.ipaddress.IPv4Address(b4), D.ipaddress.IPv6Address(b6)))
+        t, m = line_traces(cfg, lines, via="io", clauses=["Structure", "Spelling", "Suffix", "Consistent", "Pins"])
+        traces += t
+        meta += m
+        ck.count(("c04hostbits", ps4, ps6))
+    judge(ck, "C04", traces, meta, "hostbits-via-FileAnonymizer")
